@@ -4,7 +4,7 @@ import json, os, subprocess
 ROOT = os.path.dirname(os.path.dirname(os.path.abspath(__file__)))
 props = [json.loads(l) for l in open(os.path.join(ROOT, 'properties.jsonl'))]
 
-HOOK_COMMITS = ["cef4304", "d758f13", "29c8081", "748386c"]
+HOOK_COMMITS = ["cef4304", "d758f13", "29c8081", "748386c", "c220fb1"]
 
 # id -> (category, text, note, technique, engines)
 CHECKS = {
